@@ -155,7 +155,23 @@ def build(scene, state=None, assemble=True, options=None, names=None, extra=None
         if b["kind"] == "rigid":
             q0 = np.concatenate([r, p])
             u0 = np.concatenate([v, w])
-            body = RigidBody(b["m"], _theta(b), q0=q0, u0=u0, name=nm("body", i, f"b{i}"))
+            if b.get("mesh"):
+                # a rigid body that carries a visual mesh (box), placed off-centre / rotated in the body frame
+                from cardillo.discrete import Box
+
+                ms = b["mesh"]
+                body = Box(RigidBody)(
+                    dimensions=np.array(ms["dims"], dtype=float),
+                    mass=b["m"],
+                    B_Theta_C=_theta(b),
+                    q0=q0,
+                    u0=u0,
+                    B_r_CP=np.array(ms.get("offset", [0, 0, 0]), dtype=float),
+                    A_BM=rot.quat_to_mat(ms["A"]) if ms.get("A") is not None else np.eye(3),
+                    name=nm("body", i, f"b{i}"),
+                )
+            else:
+                body = RigidBody(b["m"], _theta(b), q0=q0, u0=u0, name=nm("body", i, f"b{i}"))
         else:
             body = PointMass(b["m"], q0=r.copy(), u0=v.copy(), name=nm("body", i, f"b{i}"))
         B.bodies.append(body)
